@@ -20,10 +20,12 @@
    PARTIAL.  The full statement
        clean_completion q -> Permutation (n_returned (c_n (q_cur q))) (survived_rows q)
    ("on clean completion the rows returned are, as a multiset, the matched rows of the blocks that went on
-   to be scanned") needs one more invariant over the composed pipeline: that without cancellation every
-   surviving block travels file worker -> job channel -> block worker exactly once.  It is not proved
-   here; the correspondence evaluates exactly this equation on every replayed query log
-   (Cases/RunnerQ.v, [q_violates], sorted comparison), and the two ends of the chain are the theorems above. *)
+   to be scanned") needs the row-level analogue of the block conservation proved in QueryTokenProofs.v
+   (there: every block of a started file is in exactly one of job channel / worker / recorded, exactly once
+   while the query is not cancelled).  It is not proved here; the correspondence evaluates exactly this
+   equation on every replayed query log (Cases/RunnerQ.v, [q_violates], sorted comparison), the harness
+   compares the returned multiset of every undisturbed query with the stored matching rows, and the two ends
+   of the chain are the theorems above. *)
 From BS Require Import Model.Stats Model.Cursor Model.HandlePool Model.QueryLTS
                        Proofs.CursorProofs Proofs.QueryLTSProofs Proofs.QueryInvProofs.
 From Coq Require Import List ZArith Bool Arith Lia Permutation.
